@@ -25,6 +25,25 @@ def load_lock():
     return d
 
 
+_LOCK_KINDS = ("post", "exc-missed", "loop-init", "loop-preserved", "lemma", "frame", "ground", "hint")
+
+
+def lockable(o):
+    k = o.get("kind") or ""
+    n = o["name"]
+    if n.startswith("fx/"):
+        # per-function frame obligations follow the package's own function list (renaming or
+        # extracting a helper is not a checker problem); the package-level and read-only-API
+        # obligations come from the sidecar lists
+        return n.startswith("fx/package/") or n.endswith("/modifies-nothing")
+    return k in _LOCK_KINDS or n.startswith("rx/") or n.startswith("lemma:")
+
+
+def lock_name(n):
+    import re
+    return re.sub(r"/L\d+(?=/)", "", n)
+
+
 def write_replay(prop, unit, ob, confirmed, detail):
     os.makedirs(os.path.join(HERE, "out", "replays"), exist_ok=True)
     h = hashlib.sha1((ob["name"] + json.dumps(ob.get("model"), sort_keys=True, default=str)).encode()).hexdigest()[:10]
@@ -115,15 +134,27 @@ def conclude(prop, tier, seed, results, wall, reg):
             lines.append(f"VIOLATION property={prop} replay={path}")
             exit_code = 1
 
-    # ---- lock / vacuity
+    # ---- lock / vacuity: the obligations that come from the sidecar contracts themselves
+    # (postconditions, must-raise clauses, loop invariants, lemma goals, regex and frame
+    # obligations: their names do not depend on the code) must be generated again on every run,
+    # unless their unit is reported undecided.  A run that silently generates fewer of them
+    # (a path that vanished, a plan that shrank) is a checker problem (exit 3), never a pass.
     lock = load_lock()
     missing = []
-    if lock is not None and prop in lock:
-        have = {o["name"] for _, o in obligations}
+    have = {lock_name(o["name"]) for _, o in obligations if lockable(o)}
+    if os.environ.get("VERIF_WRITE_LOCK"):
+        keep = []
+        if os.path.exists(LOCK):
+            keep = [l.rstrip("\n") for l in open(LOCK) if l.strip() and not l.startswith(prop + " ")]
+        with open(LOCK, "w") as f:
+            for l in keep:
+                f.write(l + "\n")
+            for n in sorted(have):
+                f.write(f"{prop} {n}\n")
+    elif lock is not None and prop in lock:
         und_units = {r["name"] for r in undecided_units}
         for name in sorted(lock[prop] - have):
-            unit = name.split("/")[0]
-            if unit not in und_units:
+            if not any(name.startswith(u + "/") or name.startswith("lemma:" + u) for u in und_units):
                 missing.append(name)
     if errors or n_ob == 0 or missing:
         for e in errors:
